@@ -173,6 +173,41 @@ func runC16(c *Ctx) {
 	}
 
 	// ---------- R3 ----------
+	// ---------- R8: option bits are only ever added ----------
+	{
+		c.Rule("C16.R8", "EFF", "NetworkRule.enabledOptions is only ever or-ed into: no modifier bit is cleared or overwritten after it was set", 1)
+		ws := fieldWrites(c.P, "rules", "NetworkRule", "enabledOptions")
+		n := 0
+		for _, w := range ws {
+			n++
+			ok := false
+			if bo, isB := w.Val.(*ssa.BinOp); isB && bo.Op == token.OR {
+				for _, side := range []ssa.Value{bo.X, bo.Y} {
+					if ld, isL := side.(*ssa.UnOp); isL && ld.Op == token.MUL {
+						if nn, f, isF := fieldOf(ld.X); isF && f == "enabledOptions" && namedIs(nn, "rules", "NetworkRule") {
+							ok = true
+						}
+					}
+				}
+			}
+			// the one documented way to take a bit back: the negated modifier ~extension (after $document)
+			if bo, isB := w.Val.(*ssa.BinOp); isB && !ok && (bo.Op == token.XOR || bo.Op == token.AND_NOT) {
+				if k, isK := bo.Y.(*ssa.Const); isK && k.Value != nil && k.Int64() == opt["OptionExtension"] {
+					if ld, isL := bo.X.(*ssa.UnOp); isL && ld.Op == token.MUL {
+						if nn, f, isF := fieldOf(ld.X); isF && f == "enabledOptions" && namedIs(nn, "rules", "NetworkRule") {
+							c.OK("C16.R8", shortFn(w.Fn)+": ~extension takes the extension bit back", w.Instr.Pos(), "documented exception: the negated modifier ~extension (not among the modifiers the property ranges over)")
+							continue
+						}
+					}
+				}
+			}
+			c.Check(ok, "C16.R8", shortFn(w.Fn)+": store to enabledOptions is 'enabledOptions | bits'", w.Instr.Pos(), "or-assignment",
+				"a modifier bit can be cleared or overwritten after the options were parsed (e.g. dropping an 'implied' modifier): the exception then disables less than its modifiers say")
+		}
+		if n == 0 {
+			c.Fail("C16.R8", "stores to enabledOptions", token.NoPos, "UNDECIDED: no store to NetworkRule.enabledOptions found")
+		}
+	}
 	a.rule = "C16.R3"
 	if lo := a.method("rules", "NetworkRule", "loadOption"); lo != nil {
 		table := map[string][]string{
@@ -247,6 +282,20 @@ func runC16(c *Ctx) {
 					bad = "UNDECIDED: enabledOptions after the modifier does not fold to a constant: " + u.Show(e)
 				} else if got != before|want {
 					bad = fmt.Sprintf("on an exception rule whose options were %#x before, $%s leaves %#x; documented: %#x (before | %#x)", before, mod, got, before|want, want)
+				}
+				// ... and the modifier is accepted whatever was set before (a rejected modifier drops the
+				// whole rule, so every cosmetic option stays enabled)
+				// (a prior state that already has all the bits of this modifier may stem from the same
+				// modifier given twice, which the property does not speak about)
+				if bad == "" && len(s.Rets) > 0 && before&want != want {
+					re := u.Subst(g.RetExpr(s, 0), fieldSubst(u, g.RetExpr(s, 0), ps[0], map[string]*E{
+						"Whitelist":      u.Bool(True),
+						"enabledOptions": u.ConstVal(constantInt(before), types.Typ[types.Uint64]),
+					}))
+					re = u.EvalUnder(re, func(*E) bool { return false })
+					if !re.IsNil() {
+						bad = fmt.Sprintf("on an exception rule whose options were %#x before, $%s is rejected with an error (%s): the rule is dropped and the page keeps all cosmetic options", before, mod, clip(u.Show(re), 80))
+					}
 				}
 			}
 			if bad != "" {
